@@ -76,7 +76,8 @@ def catalogue(thorough):
              ('und4_0123', 4, [(0, 1), (2, 3)]), ('und4_0213', 4, [(0, 2), (1, 3)]),
              ('und4_010223', 4, [(0, 1), (0, 2), (2, 3)])]
     if thorough:
-        und_l += [('path5', 5, [(0, 1), (1, 2), (2, 3), (3, 4)])]   # (cycle4: 4 iterations x 24 orders exceeds the budget)
+        # (cycle4 and path5 have 4 edges -> 4 iterations x n! node orders: > 1.5M states, beyond the budget)
+        und_l += [('und4_0312_13', 4, [(0, 3), (1, 2), (1, 3)]), ('und5_0123_24', 5, [(0, 1), (2, 3), (2, 4)])]
     dir_l = [('dir4_0123', 4, [(0, 1), (2, 3)]), ('dir4_012330', 4, [(0, 1), (2, 3), (3, 0)]),
              ('dir4_021331', 4, [(0, 2), (1, 3), (3, 1)]), ('dcycle4', 4, [(0, 1), (1, 2), (2, 3), (3, 0)])]
     if thorough:
